@@ -42,6 +42,7 @@ type memVFS struct {
 	// syncHook, when set, is called on the calling goroutine before a Sync takes
 	// effect (schedule point "vfs.sync") and after it (onSynced).
 	syncHook func(point string)
+	readHook func(point string)
 	onSynced func(name string)
 	dblClose int32
 }
@@ -134,6 +135,14 @@ func (v *memVFS) account() (opened, open, multi int) {
 func (h *schHandle) closed() bool { return atomic.LoadInt32(&h.closes) > 0 }
 
 func (h *schHandle) ReadAt(p []byte, off int64) (int, error) {
+	n, err := h.readAt(p, off)
+	if hook := h.fs.readHook; hook != nil {
+		hook("vfs.read") // implementation-only lines: the reader's buffer is filled, not yet decoded
+	}
+	return n, err
+}
+
+func (h *schHandle) readAt(p []byte, off int64) (int, error) {
 	if h.closed() {
 		atomic.AddInt32(&h.reads, 1)
 		return 0, fmt.Errorf("read %s: %w", h.f.name, os.ErrClosed)
